@@ -319,6 +319,25 @@ func (e *Engine) buildPkgInferenceMap(triggers []annotation.FullTrigger) {
 	}
 	e.controlledTriggersBySite = controlledTgsBySite
 
+	// The controlling site of a trigger may have already been determined to be nilable before the
+	// controlled triggers are registered above (e.g., by an explicit annotation at the call site).
+	// No further determination will happen for such sites, so their controlled triggers would
+	// never be activated; here we find such triggers upfront and activate them right away.
+	var preActivated []annotation.FullTrigger
+	for _, trigger := range triggers {
+		if !trigger.Controlled() {
+			continue
+		}
+		if val, ok := e.inferredMap.Load(e.primitive.site(trigger.Controller, false)); ok {
+			if v, ok := val.(*DeterminedVal); ok && v.Bool.Val() {
+				preActivated = append(preActivated, trigger)
+			}
+		}
+	}
+	for _, trigger := range preActivated {
+		e.buildFromSingleFullTrigger(trigger)
+	}
+
 	for _, trigger := range triggers {
 		// As the initial status, the controlled triggers are skipped and NilAway just pretends not
 		// to see them. Those controlled triggers will be activated and encoded into the inference
